@@ -143,8 +143,6 @@ LETTER = {"A": ("affine", "HomogeneousTransform"), "K": ("shearing", "Shearing")
 def generic_spec(rng, d, ac, params=None, allow_unset=False):
     model = rng.choice([m for m in GENERIC_MODELS if ac or "FFD" not in m])
     am = rng.choice([m for m in AFFINE_MODELS if d == 3 or "Q" not in m])
-    if "K" in am and not allow_unset:
-        params = "bool"         # F-06h: a callable never reaches the Shearing child (covered by dedicated cases)
     spec = {"cls": "Generic", "transform": model, "affine_model": am, "rotation_model": rng.choice(["ZXZ", "XYZ", "ZXY"]),
             "spacing": rng.choice([1, 1, 2]), "steps": rng.choice([2, 3]),
             "params": params or rng.choice(["callable", "callable", "bool"]), "values": {}, "seed": rng.randrange(1 << 30),
